@@ -34,14 +34,14 @@ translate = G.translate
 
 
 # ------------------------------------------------------------------ protocol text
-def enc_commit(c):
+def enc_commit(c, i=None):
     pins = "+".join("%d=%s" % (NAMES.index(k), ".".join(str(x) for x in v)) for k, v in sorted(c.get("pins", {}).items())) or "-"
-    return G.enc_commit(c) + ":" + pins
+    return G.enc_commit(c, i) + ":" + pins
 
 
 def enc_repo(r):
     h = r["hist"]
-    commits = ";".join(enc_commit(c) for c in h["commits"]) or "-"
+    commits = ";".join(enc_commit(c, i) for i, c in enumerate(h["commits"])) or "-"
     refs = ";".join("%s:%d" % (enc_str(G.REMOTE + "/" + n), hd) for n, hd in G.ref_order(h["refs"])) or "-"
     deps = ",".join(str(NAMES.index(d)) for d in r["deps"]) or "-"
     return "%d@%s@%s@%s" % (NAMES.index(r["name"]), deps, commits, refs)
@@ -56,10 +56,10 @@ def dec_repo(tok):
     commits = []
     if cs != "-":
         for t in cs.split(";"):
-            p, tg, m, pins = t.split(":")
+            p, tg, m, ts, pins = t.split(":")
             c = {"p": [] if p == "-" else [int(x) for x in p.split(",")],
                  "t": [] if tg == "-" else [[int(x) for x in bn.split(".")] for bn in tg.split("+")],
-                 "m": int(m), "pins": {}}
+                 "m": int(m), "ts": int(ts), "pins": {}}
             if pins != "-":
                 for q in pins.split("+"):
                     k, v = q.split("=")
@@ -546,8 +546,41 @@ def gen_col(rng, shape, lib_lines):
         raw = {"app": (app, aheads), "lib": (lib, lheads), "mid": (mid, mheads)}
     for r in repos:
         r["hist"] = finish_repo(*raw[r["name"]])
+    add_col_times(rng, repos)
     rng.shuffle(repos)
     return repos
+
+
+def add_col_times(rng, repos, mode=None):
+    """commit times inside both cut-off windows: inside a repository at most 29 days apart (in any order w.r.t. the
+    graph), and no commit of a parent repository is a day or more older than a commit of one of its components (so a
+    component with reported builds stays relevant down to the parent's roots, whichever of its builds are reported)"""
+    if mode is None:
+        mode = "tight" if rng.random() < 0.3 else "spread"
+    if mode == "tight":
+        return
+    by = {r["name"]: r for r in repos}
+    done = {}
+
+    def place(name):
+        if name in done or name not in by:
+            return
+        r = by[name]
+        for d in r["deps"]:
+            place(d)
+        n = len(r["hist"]["commits"])
+        span = rng.choice([0, G.DAY // 2, 3 * G.DAY, 29 * G.DAY])
+        off = [rng.randrange(span + 1) for _ in range(n)]
+        if rng.random() < 0.5:
+            off.sort()
+        newest = [max(c["ts"] for c in by[d]["hist"]["commits"]) for d in r["deps"] if d in by and by[d]["hist"]["commits"]]
+        base = (max(newest) - G.DAY + 1 + rng.randrange(3600)) if newest else rng.randrange(5 * G.DAY)
+        base = max(base, 0)
+        for c, o in zip(r["hist"]["commits"], off):
+            c["ts"] = base + o
+        done[name] = True
+    for r in repos:
+        place(r["name"])
 
 
 def mk_case(repos, kind):
